@@ -73,6 +73,10 @@ func runEmit(prop string) int {
 		checkSamplerInventory(r)
 		fmt.Println("C07: wrote sampler inventory")
 	}
+	if len(spec.Scope.Include) > 0 && prop != "C12" {
+		r.EmitCondRef(prop+"_conds.json", spec.Scope)
+		fmt.Println(prop + ": wrote branch-condition reference")
+	}
 	if len(spec.StoreScope.Include) > 0 {
 		r.EmitStoreRef(prop+"_stores.json", spec.StoreScope)
 		fmt.Println(prop + ": wrote store-guard reference")
